@@ -40,10 +40,11 @@ const (
 	opExecute
 	opCRS
 	opNewSettings
+	opVerifyMalformed
 	numOpKinds
 )
 
-var opNames = []string{"Commit", "CreateMultiProof", "CheckMultiProof", "Create+CheckIPAProof", "MultiScalar/MultiExp", "element-ops", "batch-helpers", "transcript", "fr-bigint-pool", "point-codec", "fp-sqrt", "parallel.Execute", "GenerateRandomPoints", "NewIPASettings"}
+var opNames = []string{"Commit", "CreateMultiProof", "CheckMultiProof", "Create+CheckIPAProof", "MultiScalar/MultiExp", "element-ops", "batch-helpers", "transcript", "fr-bigint-pool", "point-codec", "fp-sqrt", "parallel.Execute", "GenerateRandomPoints", "NewIPASettings", "CheckMultiProof(malformed)"}
 
 type opCtx struct {
 	env    *Env
@@ -504,6 +505,42 @@ func (o *opCtx) exec(kind, k int) string {
 		for i := range pts {
 			d.elem(&pts[i])
 		}
+	case opVerifyMalformed:
+		// error paths: wrong-shape proofs and statements must fail cleanly and leave nothing behind
+		n := []int{1, 2, 4, 9}[rng.Intn(4)]
+		label, Cs, fs, zs, ys := o.buildStatement(rng, n)
+		pr, err := multiproof.CreateMultiProof(common.NewTranscript(label), env.Conf, Cs, fs, zs)
+		if err != nil {
+			d.addf("error:%v", err)
+			break
+		}
+		bad := multiproof.MultiProof{D: pr.D}
+		bad.IPA.A_scalar = pr.IPA.A_scalar
+		bad.IPA.L = append([]banderwagon.Element(nil), pr.IPA.L...)
+		bad.IPA.R = append([]banderwagon.Element(nil), pr.IPA.R...)
+		switch rng.Intn(5) {
+		case 0:
+			bad.IPA.L = bad.IPA.L[:7]
+			bad.IPA.R = bad.IPA.R[:7]
+		case 1:
+			bad.IPA.L = append(bad.IPA.L, bad.IPA.L[0])
+			bad.IPA.R = append(bad.IPA.R, bad.IPA.R[0])
+		case 2:
+			bad.IPA.L = nil
+			bad.IPA.R = nil
+		case 3:
+			bad.IPA.R = bad.IPA.R[:5]
+		default:
+			ys = ys[:len(ys)-1]
+		}
+		var ok bool
+		p, _ := monTry(func() { ok, err = multiproof.CheckMultiProof(common.NewTranscript(label), env.Conf, &bad, Cs, ys, zs) })
+		d.addf("ok=%v err=%v panic=%v", ok, err != nil, p != nil)
+		// a failing transcript/codec call in between
+		var e banderwagon.Element
+		d.addf("%v %v", e.SetBytes([]byte{1, 2, 3}) != nil, e.SetBytesUncompressed(make([]byte, 63), false) != nil)
+		_, err = ipa.MultiScalar(make([]banderwagon.Element, 3), make([]fr.Element, 2))
+		d.addf("%v", err != nil)
 	case opNewSettings:
 		conf, err := ipa.NewIPASettings()
 		d.addf("err=%v", err != nil)
@@ -521,4 +558,14 @@ func (o *opCtx) exec(kind, k int) string {
 		}
 	}
 	return d.sum()
+}
+
+func monTry(f func()) (p interface{}, stack string) {
+	defer func() {
+		if r := recover(); r != nil {
+			p = r
+		}
+	}()
+	f()
+	return nil, ""
 }
